@@ -378,11 +378,12 @@ def parameter_restricted_stateless_and_rejection_keeps_value__reach(i0: int, i1:
 
 
 
-def form_member_rejection_leaves_form_unchanged(kind: int, mi: int, i1: int, i2: int) -> bool:
+def form_string_member_rejection_leaves_form_unchanged(mi: int, i1: int, i2: int) -> bool:
     """
-    pre: 0 <= kind < 3 and 0 <= mi < 6 and 0 <= i1 < 8 and 0 <= i2 < 8
+    pre: 0 <= mi < 6 and 0 <= i1 < 8 and i2 == i1
     post: _
     """
+    kind = 0
     member = ["optional", "enabled", "group", "dependency", "tooltip", "main"][mi]
     mk = [lambda: StringFormParameter("p", value="x", label="l"), lambda: BoolFormParameter("p", value=True, label="l"),
           lambda: IntegerFormParameter("p", value=1, label="l")][kind]
@@ -403,11 +404,120 @@ def form_member_rejection_leaves_form_unchanged(kind: int, mi: int, i1: int, i2:
     fresh = mk()
     return assign(used, v2) == assign(fresh, v2)
 
-def form_member_rejection_leaves_form_unchanged__reach(kind: int, mi: int, i1: int, i2: int) -> bool:
+def form_string_member_rejection_leaves_form_unchanged__reach(mi: int, i1: int, i2: int) -> bool:
     """
-    pre: 0 <= kind < 3 and 0 <= mi < 6 and 0 <= i1 < 8 and 0 <= i2 < 8
+    pre: 0 <= mi < 6 and 0 <= i1 < 8 and i2 == i1
     post: False
     """
+    kind = 0
+    member = ["optional", "enabled", "group", "dependency", "tooltip", "main"][mi]
+    mk = [lambda: StringFormParameter("p", value="x", label="l"), lambda: BoolFormParameter("p", value=True, label="l"),
+          lambda: IntegerFormParameter("p", value=1, label="l")][kind]
+    v1, v2 = ALPHA[i1], ALPHA[i2]
+    def assign(f, v):
+        try:
+            setattr(f, member, v)
+            return True
+        except BaseValidationError:
+            return False
+    used = mk()
+    before_form, before_active = dict(used.form()), list(used.active)
+    ok1 = assign(used, v1)
+    if not ok1 and (dict(used.form()) != before_form or list(used.active) != before_active):
+        return False                      # a rejected member assignment changed the form
+    if ok1 and not (member in used.active and used.form()[member] == v1):
+        return False
+    fresh = mk()
+    return assign(used, v2) == assign(fresh, v2)
+
+
+
+def form_bool_member_rejection_leaves_form_unchanged(mi: int, i1: int, i2: int) -> bool:
+    """
+    pre: 0 <= mi < 6 and 0 <= i1 < 8 and i2 == i1
+    post: _
+    """
+    kind = 1
+    member = ["optional", "enabled", "group", "dependency", "tooltip", "main"][mi]
+    mk = [lambda: StringFormParameter("p", value="x", label="l"), lambda: BoolFormParameter("p", value=True, label="l"),
+          lambda: IntegerFormParameter("p", value=1, label="l")][kind]
+    v1, v2 = ALPHA[i1], ALPHA[i2]
+    def assign(f, v):
+        try:
+            setattr(f, member, v)
+            return True
+        except BaseValidationError:
+            return False
+    used = mk()
+    before_form, before_active = dict(used.form()), list(used.active)
+    ok1 = assign(used, v1)
+    if not ok1 and (dict(used.form()) != before_form or list(used.active) != before_active):
+        return False                      # a rejected member assignment changed the form
+    if ok1 and not (member in used.active and used.form()[member] == v1):
+        return False
+    fresh = mk()
+    return assign(used, v2) == assign(fresh, v2)
+
+def form_bool_member_rejection_leaves_form_unchanged__reach(mi: int, i1: int, i2: int) -> bool:
+    """
+    pre: 0 <= mi < 6 and 0 <= i1 < 8 and i2 == i1
+    post: False
+    """
+    kind = 1
+    member = ["optional", "enabled", "group", "dependency", "tooltip", "main"][mi]
+    mk = [lambda: StringFormParameter("p", value="x", label="l"), lambda: BoolFormParameter("p", value=True, label="l"),
+          lambda: IntegerFormParameter("p", value=1, label="l")][kind]
+    v1, v2 = ALPHA[i1], ALPHA[i2]
+    def assign(f, v):
+        try:
+            setattr(f, member, v)
+            return True
+        except BaseValidationError:
+            return False
+    used = mk()
+    before_form, before_active = dict(used.form()), list(used.active)
+    ok1 = assign(used, v1)
+    if not ok1 and (dict(used.form()) != before_form or list(used.active) != before_active):
+        return False                      # a rejected member assignment changed the form
+    if ok1 and not (member in used.active and used.form()[member] == v1):
+        return False
+    fresh = mk()
+    return assign(used, v2) == assign(fresh, v2)
+
+
+
+def form_integer_member_rejection_leaves_form_unchanged(mi: int, i1: int, i2: int) -> bool:
+    """
+    pre: 0 <= mi < 6 and 0 <= i1 < 8 and i2 == i1
+    post: _
+    """
+    kind = 2
+    member = ["optional", "enabled", "group", "dependency", "tooltip", "main"][mi]
+    mk = [lambda: StringFormParameter("p", value="x", label="l"), lambda: BoolFormParameter("p", value=True, label="l"),
+          lambda: IntegerFormParameter("p", value=1, label="l")][kind]
+    v1, v2 = ALPHA[i1], ALPHA[i2]
+    def assign(f, v):
+        try:
+            setattr(f, member, v)
+            return True
+        except BaseValidationError:
+            return False
+    used = mk()
+    before_form, before_active = dict(used.form()), list(used.active)
+    ok1 = assign(used, v1)
+    if not ok1 and (dict(used.form()) != before_form or list(used.active) != before_active):
+        return False                      # a rejected member assignment changed the form
+    if ok1 and not (member in used.active and used.form()[member] == v1):
+        return False
+    fresh = mk()
+    return assign(used, v2) == assign(fresh, v2)
+
+def form_integer_member_rejection_leaves_form_unchanged__reach(mi: int, i1: int, i2: int) -> bool:
+    """
+    pre: 0 <= mi < 6 and 0 <= i1 < 8 and i2 == i1
+    post: False
+    """
+    kind = 2
     member = ["optional", "enabled", "group", "dependency", "tooltip", "main"][mi]
     mk = [lambda: StringFormParameter("p", value="x", label="l"), lambda: BoolFormParameter("p", value=True, label="l"),
           lambda: IntegerFormParameter("p", value=1, label="l")][kind]
